@@ -35,15 +35,22 @@ type scenario struct {
 	items, cores int
 	failItem     int // index of the item whose function call fails (-1 = none)
 	iterFail     int // the input iterator fails after this many items (-1 = never)
+	// failOK: the failing Next returns (true, err) — as map's own iterator does
+	// when its function fails — instead of (false, err)
+	failOK bool
 }
 
 func (s scenario) String() string {
+	if s.failOK {
+		return fmt.Sprintf("items=%d cores=%d failItem=%d iterFail=%d(Next returns true with the error)", s.items, s.cores, s.failItem, s.iterFail)
+	}
 	return fmt.Sprintf("items=%d cores=%d failItem=%d iterFail=%d", s.items, s.cores, s.failItem, s.iterFail)
 }
 
 // failingCollection yields 0..n-1 => 10*i and fails after `after` items.
 type failingCollection struct {
 	n, after int
+	okOnFail bool
 }
 
 type failingIterator struct {
@@ -56,7 +63,7 @@ func (c *failingCollection) Count() (int, bool)           { return c.n, true }
 func (it *failingIterator) Next() (bool, error) {
 	it.i++
 	if it.c.after >= 0 && it.i >= it.c.after {
-		return false, errBoom
+		return it.c.okOnFail, errBoom
 	}
 	return it.i < it.c.n, nil
 }
@@ -66,7 +73,7 @@ func (it *failingIterator) KeyExpression() b6.Expression   { return b6.NewIntExp
 func (it *failingIterator) ValueExpression() b6.Expression { return b6.NewIntExpression(10 * it.i) }
 
 func (s scenario) input() b6.UntypedCollection {
-	return b6.Collection[any, any]{AnyCollection: &failingCollection{n: s.items, after: s.iterFail}}
+	return b6.Collection[any, any]{AnyCollection: &failingCollection{n: s.items, after: s.iterFail, okOnFail: s.failOK}}
 }
 
 func (s scenario) function() api.Callable {
@@ -197,12 +204,15 @@ func scenarios(tier string) []scenario {
 	}
 	for _, cores := range coresMenu {
 		for items := 0; items <= maxItems; items++ {
-			out = append(out, scenario{items, cores, -1, -1})
+			out = append(out, scenario{items: items, cores: cores, failItem: -1, iterFail: -1})
 			for j := 0; j < items; j++ {
-				out = append(out, scenario{items, cores, j, -1})
+				out = append(out, scenario{items: items, cores: cores, failItem: j, iterFail: -1})
 			}
 			for j := 0; j <= items; j++ {
-				out = append(out, scenario{items, cores, -1, j})
+				out = append(out, scenario{items: items, cores: cores, failItem: -1, iterFail: j})
+			}
+			for j := 0; j <= items; j++ {
+				out = append(out, scenario{items: items, cores: cores, failItem: -1, iterFail: j, failOK: true})
 			}
 		}
 	}
@@ -211,9 +221,10 @@ func scenarios(tier string) []scenario {
 		// two undelivered results: that needs items >= 2*cores+1
 		for _, items := range []int{4, 5} {
 			for _, j := range []int{-1, 0, 1} {
-				out = append(out, scenario{items, 2, j, -1})
+				out = append(out, scenario{items: items, cores: 2, failItem: j, iterFail: -1})
 			}
-			out = append(out, scenario{items, 2, -1, items - 1})
+			out = append(out, scenario{items: items, cores: 2, failItem: -1, iterFail: items - 1})
+			out = append(out, scenario{items: items, cores: 2, failItem: -1, iterFail: items - 1, failOK: true})
 		}
 	}
 	return out
@@ -237,7 +248,7 @@ func main() {
 	}
 	kit.Main(&kit.Check{
 		ID: "C25", Level: "model_checking", SlowIsNotHang: true,
-		Rule:          "scenario = (items, cores, failing item | failing input iterator position); per scenario every interleaving of dispatcher, workers, errgroup and consumer at the synchronisation points of the rewritten real code plus a yield inside the mapped function. VM family: the whole expression evaluated by api.Evaluate with Context.Cores>=2, compared with the same expression with map in place of map-parallel. Oracle: the sequence map-parallel yields is map's sequence (run sequentially on the same input), or a prefix of it followed by the error when map fails; the consumer always finishes.",
+		Rule:          "scenario = (items, cores, failing item | failing input iterator position, the failing Next returning (false, err) or (true, err)); per scenario every interleaving of dispatcher, workers, errgroup and consumer at the synchronisation points of the rewritten real code plus a yield inside the mapped function. VM family: the whole expression evaluated by api.Evaluate with Context.Cores>=2, compared with the same expression with map in place of map-parallel. Oracle: the sequence map-parallel yields is map's sequence (run sequentially on the same input), or a prefix of it followed by the error when map fails; the consumer always finishes.",
 		Assumptions:   []string{"code between two synchronisation operations runs atomically", "the consumer drains the iterator to its end (the statement does not cover abandoned iterators)"},
 		QuickDeadline: 200e9, ThoroughDeadline: 1500e9, CaseTimeout: 400e9, Chunk: 1, WorkerEnv: []string{"GOMAXPROCS=1"},
 		Build: func(tier string) (kit.Space, string) {
